@@ -49,6 +49,9 @@ def units(tier, seed):
         for k in range(nch):
             u.append(dict(path=path, n=n, chunk=[k, nch]))
     u.append(dict(path="manager"))
+    # every ordered pair of the light states of the golden table, one light per side
+    for k in range(4):
+        u.append(dict(path="tlr_all", chunk=[k, 4]))
     return u
 
 
@@ -62,6 +65,18 @@ def run_unit(unit, acc):
         for E in _sets(2, TLR_LABELS, CAMS_TLR[:1]):
             for Gs in _sets(2, TLR_LABELS, CAMS_TLR[:1]):
                 check_case(dict(path="manager", E=[list(x) for x in E], G=[list(x) for x in Gs]), acc)
+        return
+    if unit["path"] == "tlr_all":
+        from mc.ref import labels as RL
+        names = [n.upper() for n in RL._TLR_MEMBERS]
+        k, n = unit["chunk"]
+        for i, le in enumerate(names):
+            if i % n != k:
+                continue
+            for lg in names:
+                for ug in ("1", "2"):
+                    for first in (False, True):
+                        check_case(dict(path="tlr", E=[["1", CAMS_TLR[0], le]], G=[[ug, CAMS_TLR[0], lg]], first=first), acc)
         return
     labels, cams = (TLR_LABELS, CAMS_TLR) if unit["path"] == "tlr" else (GEN_LABELS, CAMS_GEN)
     ES = list(_sets(unit["n"], labels, cams))
@@ -79,7 +94,7 @@ ALIAS = {"GREEN": "crosswalk_green", "RED": "crosswalk_red", "UNKNOWN": "crosswa
 
 def _mk(path, u, c, l, score=1.0, alias=False):
     o = G.mk2d(dict(roi=None, cam=c, label=l, family="traffic_light" if path != "generic" else "autoware", uuid=u, score=score))
-    if alias and path != "generic":   # the original annotation name is an alias that the converter maps onto the same label
+    if alias and path != "generic" and l in ALIAS:   # the original annotation name is an alias that the converter maps onto the same label
         o.semantic_label.name = ALIAS[l]
     return o
 
